@@ -402,6 +402,7 @@ def run_minonoff(name, on, off, ops):
     m = Model("inactive")
     hold_until = [None]
     now = [0.0]
+    watchers = []
     tname = "min-on-off"
 
     def model_pv_changed(old):
@@ -434,6 +435,22 @@ def run_minonoff(name, on, off, ops):
                 obj.WriteProperty("presentValue", (), priority=op[1])
                 m.slots[op[1]] = None
                 model_pv_changed(old)
+            elif op[0] == "watch":
+                # somebody else takes an interest in the present value (what a COV subscription does) ...
+                from bacpypes.service.detect import DetectionAlgorithm
+
+                class _Watcher(DetectionAlgorithm):
+                    pv = None
+
+                    def execute(self):
+                        pass
+                w_ = _Watcher()
+                w_.bind(pv=(obj, "presentValue"))
+                watchers.append(w_)
+            elif op[0] == "unwatch":
+                # ... and loses it again (the subscription is cancelled or runs out)
+                if watchers:
+                    watchers.pop(op[1] % len(watchers)).unbind()
             elif op[0] == "adv":
                 VC.pump(VC.clk.now + op[1])
                 model_advance(now[0] + op[1])
@@ -576,7 +593,8 @@ def run(spec, ctx):
         prio = st.sampled_from([1, 3, 5, 7, 8, 16])
         op = st.one_of(st.tuples(st.just("w"), prio, st.sampled_from(["active", "inactive"])).map(list),
                        st.tuples(st.just("r"), prio).map(list),
-                       st.tuples(st.just("adv"), st.sampled_from([0.5, 1.0, 2.0, 3.0, 5.0, 10.0, 11.0])).map(list))
+                       st.tuples(st.just("adv"), st.sampled_from([0.5, 1.0, 2.0, 3.0, 5.0, 10.0, 11.0])).map(list),
+                       st.sampled_from([["watch"], ["unwatch", 0], ["unwatch", 1]]))
         strat = st.tuples(st.sampled_from(["BinaryValueCmdObject", "BinaryOutputCmdObject"]), st.sampled_from([0, 1, 2, 5, 10]), st.sampled_from([0, 1, 3, 5, 9]),
                           st.lists(op, min_size=1, max_size=25)).map(lambda t: dict(k="minonoff", cls=t[0], on=t[1], off=t[2], ops=t[3]))
         ctx.for_all(strat, spec["n"])
